@@ -521,6 +521,11 @@ func analyseWindow(c *Check, w *World, tb *TB, iv *IV, pfx string, entry *ssa.Fu
 		mm.of(s.argT)
 	}
 	res.centre = mm.atomTerms[cAtom]
+	// the centre is one number for the whole walk: a value carried round the loop (counter += i) moves with it
+	if res.centre != nil && res.centre.ContainsStr("cycle(") {
+		c.Bad(pfx+".3", fn, "counter-argument", "the centre of the window changes from one loop step to the next ("+clip(normT(res.centre), 160)+"): the steps validated are not centre-s … centre+s", res.firstPos)
+		return nil
+	}
 	ex0 := &linMaker{w: w}
 	for _, s := range sites {
 		lv := s.levels[s.loopLvl]
